@@ -22,8 +22,10 @@ CLAIMED = {
     "C05": ("bounded symbolic model checking of the set commands through the real dispatcher: operand sets over a 3-name universe with symbolic membership "
             "(missing / wrong-typed / repeated operands, STORE destination among the operands or of another type), against bit-vector set algebra; SMOVE incl. "
             "source = destination, SREM, SINTERCARD for all int64 limits, SRANDMEMBER shape for counts -3..3 and extreme counts", "5/C05"),
-    "C18": ("bounded symbolic model checking: the real bitMath.go kernels are executed symbolically from go/ssa over a 10-byte symbolic array "
-            "with all offsets/widths and compared by the solver with a big-endian bit-vector reference", "5/C18"),
+    "C18": ("bounded symbolic model checking: the real bit kernels (extractBitfield, setBitfield, signExtend, signed/unsigned overflow) over a 10-byte "
+            "symbolic array / all int64 values and all offsets and widths against a big-endian bit-vector reference and Redis' overflow functions; "
+            "BITFIELD GET/SET/INCRBY through the real dispatcher (type table, bit and #-offsets, every OVERFLOW mode, symbolic stored bytes and value) against "
+            "bitfieldGeneric; SETBIT/GETBIT, BITCOUNT and BITPOS for all int64 ranges on strings of <= 1 byte (quick) / 2 bytes (thorough), BITOP with zero padding", "5/C18"),
 }
 
 NOT_APPLICABLE = {
